@@ -71,7 +71,7 @@ def pinned(f):
     return g
 
 
-DETERMINISTIC = {"retro:mergemin", "retro:mergetb", "retro:npl", "select:policy", "cli:select_next_plate", "mvn:sample_mvn_from_precision(singular)"}
+DETERMINISTIC = {"train:sampling.sample(model whose reset restores its construction-time generator)"} | {"retro:mergemin", "retro:mergetb", "retro:npl", "select:policy", "cli:select_next_plate", "mvn:sample_mvn_from_precision(singular)"}
 
 
 def build_ops(tmp, rnd):
@@ -134,7 +134,7 @@ def build_ops(tmp, rnd):
     def sel(seed, scr=scr):
         h = ChunkedScoresHolder(scr.n_plates)
         for p in range(scr.n_plates):
-            h.add_score(p, float(p % 3))
+            h.add_score(p, 0.25)           # every plate has the same score: whichever way the tie is broken, it is broken reproducibly
         r = select_next_plate(h, scr, KPerSamplePlatePolicy(1), [], np.random.default_rng(seed))
         return "none" if r is None else str(int(r.plate_id))
     ops["select:policy"] = (sel, scr_digest(scr), None)
@@ -161,6 +161,25 @@ def build_ops(tmp, rnd):
         def step(self):
             super().step()
             self.drawn = getattr(self, "drawn", []) + [float(self.rng.normal())]
+
+    class Restoring(Drawing):
+        """reset_model() restores the WHOLE initial state, generator included (the one the model was constructed with, unseeded) -
+        what the interface documents; the generator handed over by sampling.sample must be the one in effect when the chain runs"""
+
+        def __init__(self):
+            super().__init__()
+            self._initial_rng = np.random.default_rng()
+            self._rng = self._initial_rng
+
+        def reset_model(self):
+            super().reset_model()
+            self._rng = self._initial_rng
+
+    def sample_restoring(seed):
+        m = Restoring()
+        sampling.sample(m, ThetaHolder(n_thetas=2), seed, n_chains=2, chain_index=1, n_burnin=1, thin=1)
+        return repr([bits(x) for x in m.drawn])
+    ops["train:sampling.sample(model whose reset restores its construction-time generator)"] = (sample_restoring, "restoring-model", None)
 
     def sample_stub(seed):
         m = Drawing()
@@ -237,7 +256,7 @@ def build_ops(tmp, rnd):
         from batchie.cli import select_next_plate as m
         hh = ChunkedScoresHolder(part.n_plates)
         for p in range(part.n_plates):
-            hh.add_score(p, float((p * 7) % 5))
+            hh.add_score(p, float((p * 7) % 2))          # (many ties)
         sc, out = os.path.join(tmp, "sc.h5"), os.path.join(tmp, "sel.txt")
         hh.save_h5(sc)
         cli(m, ["--data", pfn, "--scores", sc, "--output", out, "--policy", "KPerSamplePlatePolicy", "--policy-param", "k=1", "--seed", str(seed)])
